@@ -90,6 +90,18 @@ func VerifC12Records() {
 	vAssert(soa[0] == soaOf("a.com", last), "C12/every-mutation-refreshes-the-SOA-serial")
 	// a name cannot be registered while the enclosing name holds records for sub-names of it
 	vAssume(asOwner(o1, "addRecord", "y.t.a.com", typeTXT, d4))
+	// a record of a name TWO labels below the longest registered enclosing name (t.a.com is not registered) is
+	// read back through every getter, directly, with a trailing dot, and through a CNAME
+	_, deep := recsOf("y.t.a.com", typeTXT)
+	okRes, res := vRead("nns", "resolve", "y.t.a.com", typeTXT)
+	okDot, resDot := vRead("nns", "resolve", "y.t.a.com.", typeTXT)
+	vAssert(len(deep) == 1 && deep[0] == d4, "C12/records-of-a-sub-name-live-under-the-enclosing-registered-name")
+	vAssert(okRes && len(res.([]string)) == 1 && res.([]string)[0] == d4, "C12/resolve-returns-the-records-of-a-deeper-sub-name")
+	vAssert(okDot && len(resDot.([]string)) == 1 && resDot.([]string)[0] == d4, "C12/resolve-returns-the-records-of-a-deeper-sub-name")
+	okS, resS := vRead("nns", "resolve", "s.a.com", typeTXT)
+	vAssert(okS && len(resS.([]string)) >= 1 && resS.([]string)[0] == d4, "C12/resolve-returns-the-records-of-a-sub-name")
+	_, allDeep := vRead("nns", "getAllRecords", "y.t.a.com")
+	vAssert(len(allDeep.([]RecordState)) == 1, "C12/getAllRecords-returns-every-record-of-the-name")
 	vSign(o1, true)
 	okr, _ := vInvoke("nns", "register", "t.a.com", o1, "e@nspcc.io", 1, 2, 1000, 3)
 	_, avail := vRead("nns", "isAvailable", "t.a.com")
